@@ -441,6 +441,12 @@ func init() {
 			{Scenario: "cfg.matrix", Params: vx.P("mode", "values"), Weight: 2},
 			{Scenario: "cfg.dialer", Weight: 1},
 		}
+		// the configured browser signature on the wire, through connection failures
+		for _, br := range []string{"chrome", "firefox", "safari"} {
+			jobs = append(jobs, vx.Job{Scenario: "cfg.wire", Params: vx.P("browser", br, "roles", "reset,ok", "numconn", "1"), Bound: 0, BudgetS: 100, Weight: 3},
+				vx.Job{Scenario: "cfg.wire", Params: vx.P("browser", br, "roles", "refuse,ok", "numconn", "1"), Bound: 0, BudgetS: 100, Weight: 3},
+				vx.Job{Scenario: "cfg.wire", Params: vx.P("browser", br, "roles", "reset,refuse,ok,ok,ok", "numconn", "3"), Bound: 1, BudgetS: 100, Weight: 5})
+		}
 		if tier == "thorough" {
 			const total = 1 << 18
 			const shards = 16
